@@ -77,6 +77,7 @@ func (c01) Plan(tier string, seed int64) []mon.Workload {
 		{Name: "malformed-slots", N: n / 40},
 		{Name: "time-zones", N: int64(len(c12Times) * len(gen.Zones)), Exhaustive: true},
 		{Name: "extreme-index", N: int64(len(c01IdxObjs) * len(c01IdxVals) * len(c01IdxUses)), Exhaustive: true},
+		{Name: "failing-callee", N: int64(7 * 3 * len(c01CalleeLibs) * 2), Exhaustive: true},
 		{Name: "rebinding-index", N: int64(len(c01RebindObjs) * len(c01RebindNew) * len(c01RebindUses)), Exhaustive: true},
 		{Name: "many-locals", N: manyLocalsN(), Exhaustive: true},
 		{Name: "deep-run", N: int64(len(c01DeepKinds) * len(c01DeepLevels)), Exhaustive: true},
@@ -286,6 +287,50 @@ var c01RebindUses = []string{"a[len(a = N)] += 1", "a[len(a = N)] = 1", "p(a[len
 	"p(a[len(a = N):])", "p(a[:len(a = N)])", "p(a[0:3:len(a = N)])", "a[1] += len(a = N)", "a[len(b = N)] %= 2", "a[0][\"k\"][len(a = N)] += 1", "x = a[len(a = N)] + a[0]", "a[len(a = N) + 1] += a[0]",
 	"p(a[len(_ = N)])", "a[-len(a = N)] += 1", "for e in a {\n  a[len(a = N)] += 1\n}", "a[len(a = N)], a[0] = 1, 2"}
 
+// failing-callee (exhaustive): use() of a script that fails at run time (at
+// its top level, inside blocks, after writing the point) - or succeeds, or
+// exit()s - called from 0..6 blocks deep in the caller, as a statement, as a
+// value argument of a builtin that goes on after a failed argument, and as an
+// assignment source, with statements after it at every level, once and in
+// every iteration of a loop. The caller's blocks unwind whatever the callee did.
+var c01CalleeLibs = []string{"w = [1]\ny = w[5]\n", "add_key(from_lib, 1)\nif true {\n  for e in [1] {\n    zero = 0\n    y = 1 / zero\n  }\n}\n", "add_key(from_lib, 1)\np(\"lib ok\")\n", "exit()\n", "for e in [1, 2] {\n  if e == 2 {\n    y = e[0]\n  }\n}\n"}
+
+func c01FailingCallee(i int64) (main, lib []*gt.T) {
+	twice := i%2 == 1
+	i /= 2
+	libText := c01CalleeLibs[int(i)%len(c01CalleeLibs)]
+	i /= int64(len(c01CalleeLibs))
+	form := int(i % 3)
+	depth := int(i / 3)
+	call := []string{"use(\"lib.p\")", "strfmt(z, \"%v|%v\", 1, use(\"lib.p\"))", "z = use(\"lib.p\")"}[form]
+	body := call + "\np(\"after the call\")\n"
+	if twice {
+		body = "for n = 0; n < 2; n = n + 1 {\n" + call + "\np(\"after the call\", n)\n}\n"
+	}
+	for d := depth; d > 0; d-- {
+		switch d % 3 {
+		case 0:
+			body = "if true {\n" + body + "p(\"leaving if\", " + fmt.Sprint(d) + ")\n}\n"
+		case 1:
+			body = fmt.Sprintf("for q%d = 0; q%d < 1; q%d = q%d + 1 {\n%sp(\"leaving for\", %d)\n}\n", d, d, d, d, body, d)
+		default:
+			body = fmt.Sprintf("for r%d in [1] {\n%sp(\"leaving for-in\", %d)\n}\n", d, body, d)
+		}
+	}
+	conv := func(name, text string) []*gt.T {
+		o := drive.Parse(name, text)
+		if o.Err != nil {
+			panic("c01: failing-callee script does not parse: " + text + ": " + o.Err.Error())
+		}
+		l, err := gt.FromStmts(o.Stmts)
+		if err != nil {
+			panic(err)
+		}
+		return gt.CloneStmts(l)
+	}
+	return conv("main.p", "a = 1\n"+body+"p(\"end of main\", a)\n"), conv("lib.p", libText)
+}
+
 func c01Rebinding(i int64) []*gt.T {
 	use := c01RebindUses[int(i)%len(c01RebindUses)]
 	i /= int64(len(c01RebindUses))
@@ -310,6 +355,8 @@ func (c01) build(c *mon.Ctx, workload string, i int64) (main []*gt.T, lib []*gt.
 		return c01ExtremeIndex(i), nil
 	case "rebinding-index":
 		return c01Rebinding(i), nil
+	case "failing-callee":
+		return c01FailingCallee(i)
 	case "many-locals":
 		return manyLocalsProgram(i), nil
 	case "deep-run":
